@@ -413,6 +413,33 @@ func ruleLoadRepair(c *Ctx) {
 	c.need(rule, adj, "return", func(x ssa.Instruction) bool { _, ok := x.(*ssa.Return); return ok },
 		[]Ev{&calledEv{name: "iterateRules(assign group)", match: instrCallMatcher(iter)}}, all,
 		"every adjust walks all rules of the patched view (mutated and committed) to assign their group")
+	// … and the group assigned is the patched view's: the patch's own group configurations first, the committed
+	// ones behind them. Looked up in the committed configuration alone, a patch that changes a group's index or
+	// override is validated, indexed and served with the old group while the new one is saved.
+	patchGet := F(P.Method(plc, "ruleConfigPatch", "getGroup"))
+	groupF := P.Field(plc, "Rule", "group")
+	mutGroups := P.Field(plc, "ruleConfig", "groups")
+	mutF := P.Field(plc, "ruleConfigPatch", "mut")
+	nAssign := 0
+	for _, f := range append([]*ssa.Function{adj}, adj.AnonFuncs...) {
+		for _, st := range storesToField(f, groupF) {
+			nAssign++
+			fromPatch := valueIsCallTo(st.Val, patchGet) || derivesFrom(st.Val, func(v ssa.Value) bool {
+				// a lookup in p.mut.groups written in place
+				lk, ok := v.(*ssa.Lookup)
+				if !ok {
+					return false
+				}
+				return derivesFrom(lk.X, func(w ssa.Value) bool {
+					return isLoadOf(w, mutGroups) && derivesFrom(w, loadOfField(mutF), 4)
+				}, 3)
+			}, 6)
+			c.Check(fromPatch, rule, "group assigned in "+fnName(f), "the group a rule is evaluated with comes from the patched view (the patch's own groups first), not from the committed configuration alone", P.instrPos(st), "")
+		}
+	}
+	if nAssign == 0 {
+		c.Undec(rule, "assignment of Rule.group in "+fnName(adj), "found", P.pos(adj.Pos()), "")
+	}
 }
 
 // ruleInitializeOrder: Initialize binds every loaded rule to its group in
